@@ -167,11 +167,15 @@ func VerifC16(args []string) {
 		return t
 	}
 	switch mode {
-	case "equal":
+	case "equal", "equalx":
 		shared := small("cost.shared")
 		costs := map[string]float64{}
 		for _, name := range w.order {
 			costs[name] = shared
+		}
+		if mode == "equalx" {
+			// one name has its own arbitrary cost: the others still tie among themselves
+			costs[x] = small("cost.x")
 		}
 		out := compile(costs)
 		vfAssert(refOnlyBoolReordered(tree, out), "P1: reordering changed more than the operand order of and/or")
@@ -184,6 +188,9 @@ func VerifC16(args []string) {
 			vfAssert(on != nil, "P1: an and/or node disappeared")
 			for i := 0; i < len(sn.kids); i++ {
 				for j := i + 1; j < len(sn.kids); j++ {
+					if mode == "equalx" && (refMentions(sn.kids[i], x) || refMentions(sn.kids[j], x)) {
+						continue
+					}
 					if refSkeleton(sn.kids[i]) == refSkeleton(sn.kids[j]) {
 						vfReach("equal-cost-siblings")
 						oi := refIndexOf(on.kids, refCanonTree(sn.kids[i]))
